@@ -566,6 +566,9 @@ func driverFillEll(c *Ctx) {
 		for _, n := range enames {
 			if g.pick(4) != 0 {
 				k := g.pick(4)
+				if g.pick(12) == 0 {
+					k = 9 + g.pick(4) // an index that gains a digit
+				}
 				counts[n] = k
 				cj = append(cj, J{"k": chars(n), "n": k})
 			}
@@ -868,7 +871,9 @@ func driverCtor(c *Ctx) {
 		}
 	}
 	// binary strings, ASCII strings
-	for _, s := range []string{"0b0", "0b1", "0b11111111", "0b100000000", "0b2", "0b", "0b-1", "0b01", "0B1"} {
+	for _, s := range []string{"0b0", "0b1", "0b11111111", "0b100000000", "0b2", "0b", "0b-1", "0b01", "0B1",
+		"0b1" + strings.Repeat("0", 64), "0b1" + strings.Repeat("0", 56) + "10101010", "0b" + strings.Repeat("0", 70) + "1", "0b1" + strings.Repeat("0", 63),
+		"0b" + strings.Repeat("1", 64), "0b1" + strings.Repeat("0", 31), "0b1" + strings.Repeat("0", 32) + "1"} {
 		if c.want(idx) {
 			res, _ := outcomeOf(func() ast.ItemNode { return ast.NewBinaryNode(s) })
 			c.emit(idx, J{"ev": "ctorbin", "text": chars(s), "res": res})
@@ -940,6 +945,12 @@ func driverCtor(c *Ctx) {
 					vals = append(vals, "zz9")
 					b := ast.NewBinaryNode(vals...).FillVariables(map[string]interface{}{"zz9": n})
 					return ast.NewListNode(b, ast.NewUintNode(2, vals...).FillVariables(map[string]interface{}{"zz9": n}))
+				},
+				// ... the first variable renamed to the name of a later one that the call does not mention
+				"dupsameR": func() ast.ItemNode {
+					r := map[string]interface{}{"zz9": n}
+					return ast.NewListNode(ast.NewIntNode(2, "zz9", 7, n).FillVariables(r), ast.NewUintNode(4, "zz9", n).FillVariables(r),
+						ast.NewFloatNode(8, "zz9", 1.5, n).FillVariables(r), ast.NewBooleanNode("zz9", true, n).FillVariables(r))
 				},
 				"dupsameT": func() ast.ItemNode {
 					return ast.NewBooleanNode(n, "zz9").FillVariables(map[string]interface{}{"zz9": n})
